@@ -22,6 +22,7 @@ def run(tier, seed):
     v.assumptions += ["tag + redirect / tag + removeparam are documented as unsupported and are outside the universes",
                       "tag_exists is probed for the tag names of the universe (t1,t2) plus one unused name"]
     netcommon.random_lists(v, wd, seed + 2000, 300 if tier == "quick" else 3000)
+    vlib.scale_stage(v, wd, "C07")
     return v.finish("model_checking",
                     "static: all lists of <= %d rules from {block, exception, important, csp, csp-exception} x {untagged,t1,t2} plus fusable "
                     "near-twins, under every enabled-tag subset; histories: every sequence of %d operations over use/enable/disable/"
